@@ -231,10 +231,8 @@ def check_input(
 
             sig = inspect.signature(_unwrap_fn(wrapped))
             is_method = [*sig.parameters][0] in ("self", "cls")
-            if is_method and len(args) == len(sig.parameters) - 1:
-                pos_args = sig.bind_partial(None, *args).arguments
-            else:
-                pos_args = sig.bind_partial(*args).arguments
+            bound_args = sig.bind_partial(*args)
+            pos_args = bound_args.arguments
 
             if isinstance(obj_getter, int):
                 try:
@@ -259,7 +257,7 @@ def check_input(
                     pos_args[obj_getter] = schema.validate(
                         pos_args[obj_getter], *validate_args
                     )
-                    args = list(pos_args.values())
+                    args = list(bound_args.args)
             elif obj_getter is None:
                 try:
                     _fn = _unwrap_fn(wrapped)
